@@ -566,7 +566,7 @@ static void witnessCases(long idx) {
 
 // ------------------------------------------------------------------------------------------ case loop
 namespace verif {
-long verif_ncases(const std::string & tier) { return tier == "thorough" ? 9000 : 620; }
+long verif_ncases(const std::string & tier) { return tier == "thorough" ? 16000 : 1500; }
 void verif_case(Rng & rng, long idx, const std::string & tier) {
     if (idx < 4) { witnessCases(idx); return; }
     if (idx == 4) { discCase(rng); return; }
